@@ -569,6 +569,29 @@ impl Property for C07 {
         }
     }
 
+    fn crosscheck_extras() -> Vec<Sc> {
+        // 20 000 records (some 250 KB) through the real pipe
+        let mut spec = crate::tree::TreeSpec::default();
+        spec.nodes.push(crate::tree::Node::Dir { path: "t".into() });
+        spec.nodes.push(crate::tree::Node::Dir { path: "t/a b".into() });
+        spec.bulk.push(crate::tree::Bulk { dir: "t/a b".into(), count: 20_000, kind: crate::tree::BulkKind::File });
+        let mut sc = Sc {
+            find: FindScenario::new(spec, vec![]),
+            start: "t".into(),
+            sorted: true,
+            nul: true,
+            read_sizes: vec![0],
+            read_intr_every: 0,
+            outcomes: vec![],
+            xargs_n: Some(1000),
+            follow: None,
+            files0: false,
+            xargs_replace: false,
+        };
+        sc.render();
+        vec![sc]
+    }
+
     fn rule() -> &'static str {
         "one evaluation = one seeded scenario: a real tree whose names are arbitrary valid UTF-8 without '/' and NUL (blanks only, leading '-', newlines, quotes, backslashes, {}, $(), glob characters, multi-byte, up to 250 bytes), a starting point spelled t / ./t / t/, find_main ... -print0 (or -print) writing through a sink that accepts short counts and raises EINTR, then the accepted byte stream fed to xargs_main -0 CMD through a reader that re-cuts it independently (1-byte, odd sizes, whole buffers, EINTR every k-th read), optional -n and failing children; oracle: the stream equals the concatenation over an independent reference walk, and the arguments received over all invocations equal the record list exactly once, in order; a quarter of the runs use -H/-L/-follow, the starting point may have a hostile name or come from -files0-from, and a fifth of the runs use xargs -0 -I{}; the process environment is a dimension too (variables nobody should listen to such as POSIXLY_CORRECT, TZ with daylight saving, LC_ALL, in a sixth of the runs; descriptor 1 a terminal in a tenth); a slice of the scenarios goes through the real find | xargs pipeline; distinct = distinct abstract trace; non-trivial = a write/read fault fired or a hostile-name probe hit"
     }
